@@ -20,6 +20,7 @@ CLAIM = True
 TECHNIQUE = 'property-based testing: generated (query AST, document) pairs vs an independent RFC 9535 reference evaluator; exhaustive small-scope enumeration of slices, indices and the selector x value-kind matrix'
 LEVEL_TEXT = 'Exploration by generated-input search: document-guided query ASTs rendered in many RFC spellings are compared node-for-node (order, duplicates, identity) with an independent reference evaluator; slice bounds {omitted,-7..7}^3 x lengths 0..6, indices -8..8 x lengths 0..7, the selector-kind x value-kind matrix and every delicate member name are enumerated exhaustively.'
 LEVEL_TEXT += " Also: text-level mutants of rendered queries, classified by an independent hand-written RFC 9535 parser; every mutant it accepts (filter-free) must compile and return the reference nodelist computed from the reference's own AST."
+LEVEL_TEXT += ' Member names that differ from their Unicode normal forms / case foldings are in the delicate-name pool, and all delicate names are also queried as siblings of one object.'
 BUDGET_S = {"quick": 75, "thorough": 780}
 RULE = ("Document-guided ASTs over name/index/slice/wildcard selectors in child and descendant "
         "segments (1-5 segments, bracket lists of 1-5 selectors), each rendered in several RFC 9535 "
